@@ -68,7 +68,9 @@ type File struct {
 type Arg struct {
 	File     int `json:"file"`
 	Spelling int `json:"spelling"` // 0 "-p f", 1 "-pf", 2 "--patch-file f", 3 "--patch-file=f"
-	// PathStyle: how the path is written: 0 "f", 1 "./f", 2 "d/../f" (d an existing directory), 3 absolute
+	// PathStyle: how the path is written: 0 "f", 1 "./f", 2 "d/../f" (d an existing directory), 3 absolute,
+	// 4 "~f" (a name in the current directory that starts with a tilde: a symbolic link to f; HOME
+	// is another directory, in which no such name exists), 5 "name with spaces f" (likewise a link)
 	PathStyle int `json:"path_style,omitempty"`
 	// Stray (non-empty): not a -p flag at all but a positional argument with this text, which the
 	// command has no use for ("-", a stray file name); the -p flags around it still count, in order
@@ -87,6 +89,10 @@ type Scen struct {
 	// StdinFile: stdin is a regular file opened for reading (shell redirection "< doc.json") rather
 	// than a pipe: read sizes, Stat().Size() and seekability differ
 	StdinFile bool `json:"stdin_is_file,omitempty"`
+	// StdinSkip (with StdinFile): the file starts with this many bytes that an earlier reader of
+	// the same descriptor has consumed already (`{ read header; json-patch ...; } < file`): the
+	// command inherits the descriptor at that offset and its document is what follows
+	StdinSkip int `json:"stdin_file_offset,omitempty"`
 	// NoFile: open-file limit of the child process (0: inherited) - a resource fault: a command
 	// that opens its patch files one at a time is unaffected by a low limit
 	NoFile int `json:"nofile_limit,omitempty"`
@@ -281,6 +287,15 @@ func Exec(s *Scen, binDir, dir string) (*Observed, error) {
 			name = "d/../" + name
 		case 3:
 			name = filepath.Join(dir, name)
+		case 4, 5:
+			if st := s.Files[a.File].State; st == StFile || st == StLinkOK {
+				alias := "~" + name
+				if a.PathStyle == 5 {
+					alias = "a name with spaces " + name
+				}
+				os.Symlink(name, filepath.Join(dir, alias))
+				name = alias
+			}
 		}
 		switch a.Spelling {
 		case 1:
@@ -303,7 +318,7 @@ func Exec(s *Scen, binDir, dir string) (*Observed, error) {
 	}
 	cmd.Dir = dir
 	cmd.ExtraFiles = extra
-	cmd.Env = []string{"PATH=/usr/bin:/bin", "HOME=" + dir}
+	cmd.Env = []string{"PATH=/usr/bin:/bin", "HOME=" + filepath.Join(dir, "d"), "TMPDIR=" + filepath.Join(dir, "d")}
 	var so, se bytes.Buffer
 	cmd.Stdout = &so
 	cmd.Stderr = &se
@@ -319,13 +334,18 @@ func Exec(s *Scen, binDir, dir string) (*Observed, error) {
 	var stdinFile *os.File
 	if s.StdinFile {
 		sp := filepath.Join(dir, ".stdin-document")
-		if err := os.WriteFile(sp, s.Stdin, 0o644); err != nil {
+		if err := os.WriteFile(sp, append([]byte(strings.Repeat("#", s.StdinSkip)), s.Stdin...), 0o644); err != nil {
 			return nil, err
 		}
 		if stdinFile, err = os.Open(sp); err != nil {
 			return nil, err
 		}
 		defer stdinFile.Close()
+		if s.StdinSkip > 0 {
+			if _, err := stdinFile.Seek(int64(s.StdinSkip), 0); err != nil {
+				return nil, err
+			}
+		}
 		cmd.Stdin = stdinFile
 	}
 	if err := cmd.Start(); err != nil {
@@ -558,9 +578,9 @@ func Enumerate() []*Scen {
 				out = append(out, s)
 			}
 		}
-		for style := 0; style < 4; style++ {
+		for style := 0; style < 6; style++ {
 			for sp := 0; sp < 4; sp++ {
-				out = append(out, &Scen{Target: target, Stdin: sim.Bytes(chainDoc), Note: "enumeration: path styles", Files: []File{{Name: "p.json", State: StFile, Content: sim.Bytes(chainPatch(0)), Note: "valid"}, {Name: "q.json", State: StLinkOK, Content: sim.Bytes(chainPatch(1)), Note: "valid"}}, Args: []Arg{{File: 0, Spelling: sp, PathStyle: style}, {File: 1, Spelling: (sp + 1) % 4, PathStyle: (style + 1) % 4}}})
+				out = append(out, &Scen{Target: target, Stdin: sim.Bytes(chainDoc), Note: "enumeration: path styles", Files: []File{{Name: "p.json", State: StFile, Content: sim.Bytes(chainPatch(0)), Note: "valid"}, {Name: "q.json", State: StLinkOK, Content: sim.Bytes(chainPatch(1)), Note: "valid"}}, Args: []Arg{{File: 0, Spelling: sp, PathStyle: style}, {File: 1, Spelling: (sp + 1) % 4, PathStyle: (style + 1) % 6}}})
 			}
 		}
 		for n := 1; n <= 3; n++ {
@@ -639,6 +659,11 @@ func Enumerate() []*Scen {
 		for _, in := range []string{chainDoc, chainDoc + "\n", "", "{", strings.Repeat(" ", 70000) + chainDoc} {
 			out = append(out, &Scen{Target: target, Stdin: sim.Bytes(in), StdinFile: true, Note: "enumeration: stdin is a regular file", Files: []File{{Name: "p.json", State: StFile, Content: sim.Bytes(chainPatch(0)), Note: "valid"}}, Args: []Arg{{File: 0}}})
 			out = append(out, &Scen{Target: target, Stdin: sim.Bytes(in), StdinFile: true, Note: "enumeration: stdin is a regular file, no patches"})
+		}
+		// ... inherited at an offset: a header line of 1, 17 or 5000 bytes was consumed before
+		for _, skip := range []int{1, 17, 5000} {
+			out = append(out, &Scen{Target: target, Stdin: sim.Bytes(chainDoc), StdinFile: true, StdinSkip: skip, Note: "enumeration: stdin is a regular file at an offset", Files: []File{{Name: "p.json", State: StFile, Content: sim.Bytes(chainPatch(0)), Note: "valid"}}, Args: []Arg{{File: 0}}})
+			out = append(out, &Scen{Target: target, Stdin: sim.Bytes(chainDoc + "\n"), StdinFile: true, StdinSkip: skip, Note: "enumeration: stdin is a regular file at an offset, no patches"})
 		}
 		// file boundaries matter: the whole-document pointer of a later file refers to what the
 		// earlier files produced, and an intermediate result that cannot be serialised or read back
@@ -842,11 +867,14 @@ func Gen(seed uint64) *Scen {
 	if r.P(150) {
 		s.StdinFile = true
 		s.Chunks = nil
+		if r.P(300) {
+			s.StdinSkip = 1 + r.Intn(200)
+		}
 	}
 	for i := range s.Files {
 		a := Arg{File: i, Spelling: r.Intn(4)}
 		if r.P(300) {
-			a.PathStyle = r.Intn(4)
+			a.PathStyle = r.Intn(6)
 		}
 		s.Args = append(s.Args, a)
 	}
@@ -1094,7 +1122,7 @@ func RunWorker(p sim.Params) *sim.Summary {
 		sum.Enum["fault_and_order_enumeration"]++
 	}
 	if done {
-		sum.Exhaustive = []string{fmt.Sprintf("every fault kind (%d) x every position in -p lists of length 1..3 with all other patches valid, every permutation of three chained and of three overwriting patches, no/duplicate/symlinked arguments, 14 stdin variants (empty, other roots, torn, byte-order marks, trailing data), 255/256/257/512 patch arguments (all undecodable; all applicable; the only bad one at that position), a 1 MiB patch file at each of 3 positions, stdin redirected from a regular file (5 documents, with and without patches), six two-file lists whose second file refers to the whole document or replaces a null root, 100 patch files under an open-file limit of 32, stdin delivered in 1/2/n writes, a named pipe, an inherited pipe (/dev/fd/N) and a relative symlink in a sub-directory as patch file at every position, 4 path styles x 4 flag spellings, a stray positional argument (4 texts) at each position of a three-patch list - for both binaries (%d executions)", numFaultKinds, len(enum))}
+		sum.Exhaustive = []string{fmt.Sprintf("every fault kind (%d) x every position in -p lists of length 1..3 with all other patches valid, every permutation of three chained and of three overwriting patches, no/duplicate/symlinked arguments, 14 stdin variants (empty, other roots, torn, byte-order marks, trailing data), 255/256/257/512 patch arguments (all undecodable; all applicable; the only bad one at that position), a 1 MiB patch file at each of 3 positions, stdin redirected from a regular file (5 documents, with and without patches; inherited at offsets 1, 17 and 5000), six two-file lists whose second file refers to the whole document or replaces a null root, 100 patch files under an open-file limit of 32, stdin delivered in 1/2/n writes, a named pipe, an inherited pipe (/dev/fd/N) and a relative symlink in a sub-directory as patch file at every position, 6 path styles (plain, ./, d/../, absolute, a name starting with a tilde, a name with spaces) x 4 flag spellings, a stray positional argument (4 texts) at each position of a three-patch list - for both binaries (%d executions)", numFaultKinds, len(enum))}
 	}
 	// 2. seeded random scenarios
 	for i := int64(0); i < p.MaxRuns && time.Now().Before(p.Deadline); i++ {
